@@ -122,7 +122,8 @@ Print Assumptions C17_interleaved_history_ok.
 (* ---- reads on the closed wrapper itself: any buffer size, 0 included ---- *)
 
 (* As long as the body the caller holds is the wrapper Close was called on (no probing HasBody has wrapped it again
-   since), every Read - also a zero-length one - returns no data and an error. *)
+   since), every Read - also a zero-length one, also after the body was read to its end - returns no data and a failure: an
+   error other than io.EOF (PeekSpec.is_failure; a clean end of stream would make the closed body look complete and empty). *)
 Theorem C17_read_on_closed_body_fails : forall c steps ops,
   closed_reads_fail c false false ops (fst (run c ops (init c steps))) = true.
 Proof. exact closed_reads_fail_run. Qed.
